@@ -212,3 +212,12 @@ PLANS["C01"]["thorough"].append(st("dbg", "conc", 400000, 6, 16, 3000, mode="con
 # C04: an insertion whose default-filler construction panics must leave the map unchanged
 PLANS["C04"]["quick"].append(st("dbg", "panicdrop", 1632, 12, 8, only_op="insert_with_panicking_default"))
 PLANS["C04"]["thorough"].append(st("rel", "panicdrop", 1632 * 20, 12, 16, 3000, only_op="insert_with_panicking_default"))
+
+# C20 over the histories of the world and storage engines (every creation / deletion path, lazy updates,
+# all storage kinds): each case is replayed twice in-process and hashed for the cross-process comparison
+for _f in ("dbg", "rel"):
+    PLANS["C20"]["quick"].append(st(_f, "world", 1600, 80, 4, compare="w"))
+    PLANS["C20"]["quick"].append(st(_f, "storage", 3200, 60, 4, compare="s"))
+for _f in ("dbg", "dbg", "rel", "rel"):
+    PLANS["C20"]["thorough"].append(st(_f, "world", 120000, 80, 8, 3000, compare="w"))
+    PLANS["C20"]["thorough"].append(st(_f, "storage", 240000, 60, 8, 3000, compare="s"))
